@@ -182,7 +182,7 @@ def case_cost(case):
 
 def run_case(case, tier):
     return run_template_case(
-        harness_for(case), tier, opts={"round_identity": False, "assume_positive_area": True, "tol_cut": True}, max_paths=200, validate_every=10
+        harness_for(case), tier, opts={"round_identity": False, "assume_positive_area": True, "tol_cut": True}, max_paths=200 if tier == "quick" else 1500, validate_every=10
     )
 
 
